@@ -425,6 +425,13 @@ pub fn plan(tier: Tier) -> Plan {
     checks.push(pool::<H4>("finite/last-edge-differs", 3, 9));
     checks.push(pool::<H100>("finite/last-edge-differs", if q { 2 } else { 3 }, 9));
     checks.push(pool::<H100>("infinite-outer/differs", 2, 9));
+    #[cfg(feature = "nightly")]
+    for v in variants {
+        checks.push(pool::<K1>(v, 5, 9));
+        checks.push(pool::<K2>(v, 4, 9));
+        checks.push(pool::<K3>(v, 4, 9));
+        checks.push(pool::<K10>(v, 3, 9));
+    }
     Plan {
         rule: "BFS over pools of three histograms (slots 0, 1 on edge vector A; slot 2 on B, which differs from A numerically, or equals it, or differs only in the sign of a zero) with operations add(slot, sample class), merge, +=, *= k (k in {0,1,3}), reset, clone, counts bounded by a budget; ghost bin vectors per slot; on every transition: bins equal the ghost (bin-wise sum after merge/+=, both agreeing), edges untouched, merge/+= on numerically different edges panic with both operands unchanged, argument never modified, iter() yields exactly LEN ((lower,upper),count) items in edge order, widths/centers/normalized_bins equal the literal IEEE expressions, variance(i) == variances()[i] == count(1-count/total) within 4 ulp".into(),
         assumptions: common_assumptions(),
